@@ -50,15 +50,19 @@ structure Pos where
 
 def Pos.col (p : Pos) : Nat := 1 + (Utf8.runes p.revLine.reverse).length
 
-/-- consume the given bytes (a prefix of `rest`) -/
-def advance (p : Pos) : Bytes → Pos
-  | [] => p
-  | b :: bs =>
+/-- consume `n` bytes of the unread input, keeping line and line-start up to date -/
+def advanceN (p : Pos) : Nat → Pos
+  | 0 => p
+  | n + 1 =>
     match p.rest with
     | [] => p
-    | _ :: r =>
-      if b == 10 then advance ⟨r, p.line + 1, []⟩ bs
-      else advance ⟨r, p.line, b :: p.revLine⟩ bs
+    | b :: r =>
+      if b == 10 then advanceN ⟨r, p.line + 1, []⟩ n
+      else advanceN ⟨r, p.line, b :: p.revLine⟩ n
+
+/-- consume a token text (always a prefix of `rest`; positions depend on the offset only, as in
+lexer.lineColumn, which rescans `input[:start]`) -/
+def advance (p : Pos) (bs : Bytes) : Pos := advanceN p bs.length
 
 def isBlank (b : Nat) : Bool := b == 32 || b == 9 || b == 13 || b == 10
 
@@ -165,6 +169,11 @@ def nextIsAlnum (ual : List Nat) (s : Bytes) : Bool :=
     if b < 128 then isWordB b
     else ual.contains (Utf8.decodeRune s).1
 
+/-- the condition under which lexText hands over to lexNumber -/
+def startsNumber : Bytes → Bool
+  | b :: r => b == 43 || b == 45 || isDigitB b || (b == 46 && (match r with | c :: _ => isDigitB c | [] => false))
+  | [] => false
+
 /-- lexNumber: the text of the number (sign, digits, fraction, exponent) -/
 def scanNumber (s : Bytes) : Bytes :=
   let (sign, s1) := match s with
@@ -199,25 +208,28 @@ def scanNumber (s : Bytes) : Bytes :=
     | [] => []
   sign ++ pre ++ d1 ++ frac ++ exp
 
+/-- lexDataItemSize after the `[`: the raw text up to and including `]`, or `none` (invalid) -/
+def scanSizeBody (r0 : Bytes) : Option Bytes :=
+  let (w1, r1) := spanB isBlank r0
+  let (d1, r2) := spanB isDigitB r1
+  let (w2, r3) := if d1.isEmpty then ([], r2) else spanB isBlank r2
+  let found1 := !d1.isEmpty
+  let (mid, found2, r4) : Bytes × Bool × Bytes :=
+    match r3 with
+    | 46 :: 46 :: r =>
+      let (w3, ra) := spanB isBlank r
+      let (d2, rb) := spanB isDigitB ra
+      let (w4, rc) := if d2.isEmpty then ([], rb) else spanB isBlank rb
+      ([46, 46] ++ w3 ++ d2 ++ w4, !d2.isEmpty, rc)
+    | _ => ([], false, r3)
+  match r4 with
+  | 93 :: _ => if found1 || found2 then some (w1 ++ d1 ++ w2 ++ mid ++ [93]) else none
+  | _ => none
+
 /-- lexDataItemSize: the raw text `[ … ]` including inner blanks, or `none` (invalid) -/
 def scanSize (s : Bytes) : Option Bytes :=
   match s with
-  | 91 :: r0 =>
-    let (w1, r1) := spanB isBlank r0
-    let (d1, r2) := spanB isDigitB r1
-    let (w2, r3) := if d1.isEmpty then ([], r2) else spanB isBlank r2
-    let found1 := !d1.isEmpty
-    let (mid, found2, r4) : Bytes × Bool × Bytes :=
-      match r3 with
-      | 46 :: 46 :: r =>
-        let (w3, ra) := spanB isBlank r
-        let (d2, rb) := spanB isDigitB ra
-        let (w4, rc) := if d2.isEmpty then ([], rb) else spanB isBlank rb
-        ([46, 46] ++ w3 ++ d2 ++ w4, !d2.isEmpty, rc)
-      | _ => ([], false, r3)
-    match r4 with
-    | 93 :: _ => if found1 || found2 then some (91 :: w1 ++ d1 ++ w2 ++ mid ++ [93]) else none
-    | _ => none
+  | 91 :: r0 => (scanSizeBody r0).map (91 :: ·)
   | _ => none
 
 /-- index of the first byte satisfying p -/
@@ -298,7 +310,7 @@ def stepHeader (p : Pos) : Step :=
       if b == 46 then emit .msgEnd [46] [46] .header p
       else if b == 60 then emit .lab [60] [60] .text p
       else
-        let w := (Utf8.decodeRune s).2
+        let w := max (Utf8.decodeRune s).2 1      -- a rune of a non-empty string has width ≥ 1
         let first := s.take w
         let name := first ++ scanName s.length (s.drop w)
         emit .msgName name name .header p
@@ -307,7 +319,7 @@ def stepText (ual : List Nat) (p : Pos) : Step :=
   let s := p.rest
   match s with
   | [] => .last (mkTok .eof [69, 79, 70] p)
-  | b :: r =>
+  | b :: _ =>
     if startsWith [47, 47] s then
       let (c, _) := scanComment s
       emit .comment c c .text p
@@ -322,7 +334,7 @@ def stepText (ual : List Nat) (p : Pos) : Step :=
         let v := w ++ matchIdxs s.length (s.drop w.length)
         emit .variable v v .text p
     | none =>
-      if b == 43 || b == 45 || isDigitB b || (b == 46 && (match r with | c :: _ => isDigitB c | [] => false)) then
+      if startsNumber s then
         let n := scanNumber s
         if nextIsAlnum ual (s.drop n.length) then .last (mkErr .badNumber p)
         else emit .number n n .text p
